@@ -1,10 +1,16 @@
 PROP = {
     "id": "C29",
     "theorem_modules": ["Verif.Properties.C29"],
-    "min_theorems": 5,
+    "min_theorems": 9,
     "required_theorems": [
         "Verif.Properties.C29.import_sound",
         "Verif.Properties.C29.import_total",
+        "Verif.Properties.C29.import_sound_deep",
+        "Verif.Properties.C29.import_args_sound",
+        "Verif.Properties.C29.import_args_total",
+        "Verif.Properties.C29.import_args_count",
+        "Verif.Properties.C29.importable_means_deep",
+        "Verif.Properties.C29.conforms_means_deep",
     ],
     "streams": [
         {"name": "args", "driver": "drv_args",
@@ -12,8 +18,31 @@ PROP = {
     ],
     "exhaustive": False,
     "technique": "Lean 4 proof over a code-shaped port of importValidatedArguments / valueImporter + correspondence stream through the real runtime (both engines)",
-    "level_text": "TODO",
-    "level_note": "TODO",
-    "assumptions": [],
+    "level_text": "Lean theorems about a code-shaped port of importValidatedArguments / valueImporter.importValue / IsImportable / "
+                  "ConformsToStaticType, for every context (declarations, subtype relations, least-common-supertype function): an accepted "
+                  "argument is importable, its run-time type is a subtype of the parameter type and it conforms to its static type "
+                  "(import_sound), spelled out declaratively for every value nested at any depth (import_sound_deep: no capability / "
+                  "non-importable composite anywhere, every element / key / value / field of a subtype of its declared type, exact field "
+                  "sets, constant array sizes); every other argument is rejected with an invalid-argument user error, never an internal "
+                  "error (import_total, import_args_total, import_args_count). Tied to /repo by the `args` stream: generated parameter "
+                  "types x correctly typed / wrongly typed / partially wrong (nested element, missing / extra / renamed / repeated field, "
+                  "wrong field type, wrong kind, wrong or unknown type ID, wrong enum raw type, optional level off by one, wrong constant "
+                  "array size) / non-importable (resource, event, contract, function, capability) / undecodable JSON-CDC arguments, run "
+                  "through runtime.ExecuteScript in both engines against a deployed contract; the script returns getType(), "
+                  "isSubtype(of: T) and the argument itself; the driver compares acceptance, rejection stage, run-time type and the "
+                  "exported value with the model, and judges Go's own output against the spec (user-error class; reported type a subtype "
+                  "by Go's and by the Lean relation; exported value importable and conforming at every depth) independently of the model's import.",
+    "level_note": "Partial: the second sentence of the property (script results export to values that round-trip through JSON-CDC and "
+                  "CCF) is a stated comment (export_roundtrips), exercised on the Go side only. Value algebra: numbers of all integer kinds, "
+                  "Fix64/UFix64, strings, characters, bools, addresses, paths, optionals, variable/constant arrays, dictionaries, structs / "
+                  "enums / resources / events with declared fields, type values, capabilities, functions, contracts; not InclusiveRange, "
+                  "built-in composites (PublicKey, HashAlgorithm, ...), Fix128/UFix128, Bytes. The subtype relations and declarations are "
+                  "parameters of the theorems; the driver instantiates them with C08's rule interpreter over the regenerated rules.yaml data "
+                  "and a declaration table checked against the running checker (`decl` ops). sema.LeastCommonSuperType is ported for "
+                  "homogeneous and numeric / path joins only; arguments whose import depends on another join are compared with the spec "
+                  "only (SKIP lcs-not-ported, <1%). Arguments are JSON-CDC encoded (the CCF DecodeArgument path is not exercised: "
+                  "internal/cdc fixes the decoder). Type IDs use address locations only (the test host's location resolver asserts "
+                  "AddressLocation).",
+    "assumptions": ["static type <-> sema type conversions are identities on the fragment (checked by C08's types stream)", "field names are distinct in a declaration"],
     "trusted_base": ["hand-written port Verif.Model.Import validated by stream args", "Go harness cmd/vharness/stream_args.go", "driver Drv/Args.lean"],
 }
